@@ -11,9 +11,9 @@ import (
 	"verifharness/vk"
 )
 
-var profC02A = Profile{W: with(baseWeights(), map[int]int{opBegin: 6, opInsert: 8, opSnapshot: 1, opChanges: 1, opNext: 1, opRegInit: 1, opMarkDone: 1}), TwoTxns: true}
+var profC02A = Profile{W: with(baseWeights(), map[int]int{opBegin: 6, opInsert: 8, opQuery: 4, opSnapshot: 1, opChanges: 1, opNext: 1, opRegInit: 1, opMarkDone: 1}), TwoTxns: true}
 
-const ruleC02A = "histories whose write transactions target 1-3 tables (Begin with arbitrary table lists, one or two transactions open at once on disjoint tables), committed or aborted. At every hook point inside Commit (commit.start, commit.indexesCommitted, commit.rootStored, commit.notified, commit.unlocked, commit.initClosed) a fresh snapshot is fingerprinted on every table the transaction holds: it must show the pre-commit state on all of them before the root store and the post-commit state on all of them afterwards; the ReadTxn returned by Commit and a fresh one must show the post state; tables the transaction does not hold are unchanged; after Abort a fresh snapshot equals the committed model and the retained-deletion counts are unchanged. Non-trivial = a committed transaction with successful writes in >=2 tables or an aborted transaction with successful writes; distinct by case encoding."
+const ruleC02A = "histories whose write transactions target 1-3 tables (Begin with arbitrary table lists, one or two transactions open at once on disjoint tables), committed or aborted. At every hook point inside Commit (commit.start, commit.indexesCommitted, commit.rootStored, commit.notified, commit.unlocked, commit.initClosed) a fresh snapshot is fingerprinted on every table the transaction holds: it must show the pre-commit state on all of them before the root store and the post-commit state on all of them afterwards; the ReadTxn returned by Commit and a fresh one must show the post state; tables the transaction does not hold are unchanged; queries made inside an open write transaction on tables it does not hold answer from the snapshot taken when it started, whatever was committed since; after Abort a fresh snapshot equals the committed model and the retained-deletion counts are unchanged. Non-trivial = a committed transaction with successful writes in >=2 tables or an aborted transaction with successful writes; distinct by case encoding."
 
 func TestC02CommitVisibility(t *testing.T) {
 	dbTest(t, "C02", "TestC02CommitVisibility", ruleC02A, profC02A, Options{})
